@@ -73,6 +73,8 @@ func mcPlan() []*mcRun {
 		{module: "OuterCancel", cfg: "MC_outer_small_shutdown.cfg"},
 		{module: "OuterCancel", cfg: "MC_outer_defect_erradmit.cfg", expect: "outer-writer-delayed-with-nothing-held"},
 		{module: "OuterCancel", cfg: "MC_outer_defect_delete_every.cfg", expect: "-after-grace"},
+		{module: "OuterCancel", cfg: "MC_outer_defect_autorelease.cfg", expect: "outer-writer-granted-before-grace-with-a-reader-still-holding"},
+		{module: "OuterCancel", cfg: "MC_outer_defect_cancel_after_done.cfg", expect: "outer-writer-granted-before-reader-released-or-cancelled"},
 		{module: "OuterCancel", cfg: "MC_outer_defect.cfg", expect: "outer-reader-cancelled-before-grace-since-writer-asked"},
 	}
 	if ev.Thorough() {
@@ -364,6 +366,13 @@ func outerScenarios(rng *rand.Rand) []scenario {
 		S("staged:reader-cancelled-during-the-call-then-lone-writer", NW(R("hold", 2)), PC(1), A(10), W(5), A(3*G))
 		S("staged:two-readers-cancelled-during-the-call-then-lone-writer", NW(R("hold", 2)), NW(R("hold", 3)), NW(PC(1)), PC(2), A(10), W(5), A(3*G))
 	}
+	// a reader whose PARENT context ended while it holds is still holding: a writer waits for its release or for the grace period
+	for _, rk := range []ostep{R("hold", 3*G), R("hold", 10*G), R("late", 3*G), R("late", 20), R("grace", 0)} {
+		S("staged:parent-cancel-while-holding-then-writer", rk, A(5), PC(1), A(5), W(5), A(4*G))
+		S("staged:parent-cancel-while-holding-then-writer", rk, R("hold", 20), A(5), PC(1), A(30), W(5), A(4*G))
+		S("staged:parent-cancel-while-holding-then-two-writers", rk, A(5), PC(1), A(G/2), W(5), A(2*G), W(5), A(4*G))
+		S("staged:parent-cancel-while-writer-waits", rk, A(5), W(5), A(G/2), PC(1), A(4*G))
+	}
 	// the release func called twice; ids of the reader registry are reused after a writer: reader A (released, or
 	// told to stop by writer W1) calls its release func (again) only after a later reader B was admitted; writer W2 must
 	// still cancel B after the grace period and be granted
@@ -419,6 +428,10 @@ func outerScenarios(rng *rand.Rand) []scenario {
 			cls = "random-shutdown"
 		}
 		S(cls, st...)
+	}
+	// free-running rounds on the real clock (orderings that need real parallelism)
+	for i := 0; i < ev.Pick(160, 1200); i++ {
+		out = append(out, scenario{Prim: "outercancel", Class: "free-running", Free: true, Graceful: []int{5, 8, 12}[i%3], Readers: 2 + i%3, Children: 2000})
 	}
 	return out
 }
@@ -625,6 +638,7 @@ var whyText = map[string]string{
 	"outer-reader-not-told-to-stop-after-grace":                      "outer-cancel: the grace period after a writer's Lock call (no other writer around) has passed and an earlier reader has neither released nor been told to stop; the writer keeps waiting",
 	"outer-writer-not-granted-after-grace":                           "outer-cancel: a writer (no other writer around) is not granted although the grace period after its Lock call has passed",
 	"outer-reader-admitted-while-writer-holds":                       "outer-cancel: a reader was admitted before the writer unlocked",
+	"outer-writer-granted-before-grace-with-a-reader-still-holding":  "outer-cancel: a writer was granted earlier than the grace period after its Lock call although an earlier reader had neither released nor been cancelled by the lock (a context that ended with its parent's cause does not count)",
 	"outer-writer-granted-before-reader-released-or-cancelled":       "outer-cancel: a writer was granted while an earlier reader had neither released nor been cancelled",
 	"outer-reader-cancelled-before-grace-since-writer-asked":         "outer-cancel: a reader's context was cancelled earlier than the grace period after the writer's Lock call",
 	"outer-reader-cancelled-for-a-writer-with-another-cause":         "outer-cancel: a reader was cancelled for a writer with a cause other than the configured one",
@@ -742,6 +756,7 @@ func TestCheck(t *testing.T) {
 	e.Set("process_crashes_not_reproduced_in_isolation", unconfirmedCrashes.Load())
 	e.Assume("FIFO-ness of the Go channel send queue is an axiom of FifoMutex.tla/FifoMap.tla (corroborated, not proved, by the traces)",
 		"lock.OuterCancel runs inside a testing/synctest bubble: time is virtual, a client records the return of its call at the instant it returned; its mutual-exclusion clauses are judged while it is running (before shutdown)",
+		"free-running lock.OuterCancel rounds (real clock, real parallelism): a reader counts as told to stop when the context handed to it and a sample of the contexts derived from it have ended at the instant Lock returns; the laws that need the virtual clock are off for them",
 		"arrival order of FIFO waiters = the order in which the quiescence detector first sees them blocked in `chan send` inside fifo.(*Mutex).Lock (lockers move one at a time)",
 		"correctly paired programs: every section is acquire / critical section / one matching release (Unlock|DeleteUnlock after Lock, RUnlock|DeleteRUnlock after RLock) by the same goroutine; plain cmap Delete only at rest")
 	e.Set("rule", "a case = (primitive, client program, schedule). Gated primitives (fifo.Mutex, fifo.Map, cmap.Mutex, lock.Context): 2-4 (thorough 2-8) goroutines x 1-3 sections over 1-3 keys; modes Lock/RLock; releases Unlock/RUnlock/DeleteUnlock/DeleteRUnlock (cmap); context cancelled before the call / while waiting / right before or right after the unlock that hands the token to the waiter (lock.Context); a seeded driver chooses at every quiescent point which parked goroutine moves (gates: fifomap.lock.counted, fifomap.unlock.counted, cmap.(r)lock.lookedUp, cmap.(r)lock.created, one gate inside each critical section), which client starts its next section, which pending context is cancelled; staged schedules for the delete-and-release histories and the cancel-at-hand-over histories; a final probe acquisition for the single locks; a few ungated parallel runs. lock.OuterCancel: scripts of RLock (reader releases after d ms | when told to stop | d ms after being told | context already cancelled), Lock (hold d ms), clock advance, parent cancel, shutdown with d from {0,1,5,G/2,G-1,G,G+1,2G,5G} (G = grace period), staged (reader already holding 0..5G before the writer arrives, readers releasing before/at/after the grace timeout, arrivals while a writer waits/holds, queued writers, parent cancels, shutdown) + random; non-trivial = schedule longer than 6 choices or script of >= 3 steps; distinct by (program, schedule)")
